@@ -890,6 +890,15 @@ def report(ck: Check, agg: dict, prop: str):
 def replay(ck: Check, prop: str):
     body = json.loads(Path(ck.replay_path).read_text())
     rp = body['replay']
+    if 'fine_bits' in rp:
+        from harness import runtime_fine as rf
+        r = rf.run_schedule(rp['fine_bits'])
+        print(json.dumps({k: r[k] for k in r if k not in ('snaps', 'holders')},
+                         indent=1, default=str))
+        if not r['ok']:
+            report_fine_bad(ck, r)
+        print('reproduced' if not r['ok'] else 'NOT reproduced')
+        return
     if 'scenario' not in rp:
         print(f'replay: {body.get("what")}')
         print('  (no schedule recorded: this entry names a broken proof or '
@@ -1009,36 +1018,133 @@ def extra_c15(ck: Check):
     replay_witnesses(ck, 'C15')
 
 
-def extra_c07(ck: Check):
-    from harness.runtime_fine import double_wake_replay
-    r = double_wake_replay()
-    ck.coverage['fine_race_replay'] = r
-    if not r.get('line_found') or not r.get('fired'):
+def fine_schedules(locked: bool, tier: str) -> list:
+    """The schedule of the repaired finding + one shortest schedule per state
+    the source-line model can reach (printed by the driver)."""
+    from harness import runtime_model as rm
+    from harness.runtime_fine import RACE_BITS
+    paths = rm.run_driver([f'fine-paths {int(locked)}'])[0].split()
+    # after the shortest path: one step of the main thread, one of the
+    # incoming thread (exercises the no-op steps of a thread that waits for
+    # the mutex / for the ready queue); thorough: every edge of the state graph
+    tails = ['10'] if tier != 'thorough' else ['0', '1', '10', '01']
+    out = [RACE_BITS] + [p[1:] + t for p in paths for t in tails]
+    return out
+
+
+def run_fine(schedules: list, sk: dict, stop_at_first_failure: bool) -> dict:
+    """Scheduler-controlled line-level runs on the real Worker (two real
+    threads), oracle + state-by-state comparison with the model."""
+    from harness import runtime_fine as rf
+    from harness import runtime_model as rm
+    lk = int(bool(sk['locked']))
+    runs = []
+    for bits in schedules:
+        r = rf.run_schedule(bits, sk)
+        runs.append(r)
+        if stop_at_first_failure and not r['ok']:
+            break
+    got = rm.run_driver([f'fine {lk} {r["bits"] or "-"}' for r in runs])
+    bad, mism = [], []
+    for r, line in zip(runs, got):
+        if not r['ok']:
+            bad.append(r)
+        d = rf.compare_with_model(r, line)
+        if d is not None:
+            mism.append((r, d))
+    return {'runs': runs, 'bad': bad, 'mismatch': mism,
+            'steps': sum(len(r['bits']) for r in runs),
+            'blocked_on_lock': sum(r['blocked_on_lock'] for r in runs)}
+
+
+def _fine_replay(r):
+    return {'fine_bits': r['bits_given'], 'executed_bits': r['bits'],
+            'locked': r['locked'],
+            'steps': [f'{"main" if b else "incoming"}:'
+                      + '.'.join(map(str, lab)) + ('' if moved else ':no-op')
+                      for b, lab, moved in r['labels']],
+            'replay_cmd': '/venv/bin/python -c "from bqskit.ir.circuit import'
+            ' Circuit; from harness.runtime_fine import run_schedule as f; '
+            f'print(f(\'{r["bits_given"]}\'))"',
+            'obs': {k: r.get(k) for k in (
+                'max_ready', 'results', 'errors', 'inc_crash', 'abort',
+                'blocked_on_lock')}}
+
+
+def report_fine_bad(ck: Check, r: dict):
+    if r.get('abort') in ('timeout', 'incoming-thread-hung',
+                          'main-blocked-unexpectedly'):
         ck.violation(
-            'fine-race:cannot-force', 'the source line of _process_await at '
-            'which the interleaving of C07_fine_double_wake_witness is forced '
-            'was not found / not reached (code changed: re-derive the fine '
-            'model)', {'broken': 'C07_fine_double_wake_witness', 'obs': r},
-            found_input=False)
-    elif r.get('assertion_error') or r.get('ready_after_racy_await', 0) > 1:
+            'fine-race:cannot-force', 'the line-level scheduler could not '
+            f'drive the two threads of the real Worker ({r["abort"]}); the '
+            'source-line model is not tied to the code in this run',
+            _fine_replay(r), found_input=False)
+    elif r['assertion_error'] or r['max_ready'] > 1:
         ck.violation(
             'fine-race:double-wake:_process_await||_handle_result',
-            'thread interleaving (forced with sys.settrace on the real '
-            'Worker): _handle_result runs right after `box.dest_addr = ...` '
-            'of _process_await -> the task is put on the ready queue '
-            f'{r.get("ready_after_racy_await")} times; the stale wake-up hits '
+            'thread interleaving (two real threads of a real Worker, parked '
+            'at source lines with sys.settrace): _handle_result runs between '
+            'the statements of _process_await -> the task is put on the '
+            f'ready queue {r["max_ready"]} times; the stale wake-up hits '
             '`assert box.ready` and an AssertionError the task body never '
-            'raised is sent as ERROR',
-            {'replay_cmd': '/venv/bin/python -c "from harness.runtime_fine '
-             'import double_wake_replay as f; print(f())"', 'obs': r},
-            found_input=True)
+            'raised is sent as ERROR: ' + ' '.join(_fine_replay(r)['steps']),
+            _fine_replay(r), found_input=True)
     else:
+        kind = ('stuck' if r.get('abort') == 'stuck' else
+                'incoming-thread-crash' if r['inc_crash'] else
+                'error' if r['errors'] else 'wrong-result')
         ck.violation(
-            'fine-race:witness-not-reproduced',
-            'C07_fine_double_wake_witness describes a race the real Worker no '
-            'longer shows under the forced interleaving (model follows a '
-            'different code)', {'broken': 'C07_fine_double_wake_witness',
-                                'obs': r}, found_input=False)
+            f'fine-race:{kind}:_process_await||_handle_result',
+            'thread interleaving (two real threads of a real Worker, parked '
+            f'at source lines): the awaiting task does not return exactly '
+            f'once with its two results ({kind}): results={r["results"]} '
+            f'errors={r["errors"]} crash={r["inc_crash"]}: '
+            + ' '.join(_fine_replay(r)['steps']),
+            _fine_replay(r), found_input=True)
+
+
+def extra_c07(ck: Check):
+    from harness import runtime_fine as rf
+    sk = rf.skeleton()
+    cov = {'statements_match_model': sk['ok'], 'locked': sk['locked']}
+    ck.coverage['fine_model_tie'] = cov
+    if not sk['ok']:
+        ck.violation(
+            'fine-model:statements-changed', 'the statements of '
+            'Worker._process_await / Worker._handle_result are no longer the '
+            'statements the source-line model (Model/FineWake.lean) has one '
+            'step for: ' + '; '.join(sk['problems'])[:600]
+            + ' (re-derive the model; C07_fine_lock_safe does not describe '
+            'this code)', {'broken': 'C07_fine_lock_safe',
+                           'problems': sk['problems']}, found_input=False)
+        return
+    scheds = fine_schedules(sk['locked'], ck.tier)
+    if not sk['locked'] and ck.tier != 'thorough':
+        scheds = scheds[:80]
+    res = run_fine(scheds, sk, stop_at_first_failure=not sk['locked'])
+    cov.update(schedules=len(res['runs']), steps=res['steps'],
+               steps_blocked_on_the_mutex=res['blocked_on_lock'],
+               failing=len(res['bad']), model_mismatches=len(res['mismatch']),
+               finding_schedule=rf.double_wake_replay()
+               if sk['locked'] else None)
+    ck.coverage['evaluations'] += len(res['runs'])
+    for r in res['bad'][:3]:
+        report_fine_bad(ck, r)
+    for r, d in res['mismatch'][:1]:
+        ck.violation(
+            'correspondence:fine-model', 'line-level run of the real Worker '
+            f'and the source-line model disagree: {d}',
+            {'broken': 'correspondence FineWake <-> worker.py',
+             **_fine_replay(r)}, found_input=False)
+    if not sk['locked']:
+        ck.violation(
+            'fine-model:not-locked', 'the statements of _process_await / '
+            '_handle_result are not inside `with self._mailbox_mutex:`: the '
+            'code is the pre-fix variant, C07_fine_lock_safe (the model with '
+            'the lock) does not describe it'
+            + ('' if res['bad'] else '; the scheduled line-level runs found '
+               'no failing schedule'),
+            {'broken': 'C07_fine_lock_safe'}, found_input=False)
 
 
 # ------------------------------------------- exhaustive delivery orders (small)
